@@ -281,6 +281,9 @@ def run(ctx):
             raise tlc.MachineryFailure(f"fresh parse of kind {k} failed: {o}")
         fresh[k] = o[0]
     hists = [rec["hist"] for rec in rh.records if rec["hist"]]
+    # (TLC checks every history; of those of length 3 every fourth is also executed: each one costs a fresh process
+    # and three passes over its documents)
+    hists = [h for n, h in enumerate(hists) if len(h) < 3 or n % 4 == 0]
     exp = {tuple(rec["hist"]): rec["outs"] for rec in rh.records}
     outs = pmap(_hist_job, [(str(hd), h) for h in hists], procs=16, chunksize=4)
     traces = []
